@@ -10,6 +10,8 @@ CONSTANTS
   Emit = FALSE
   CharSigned = TRUE
   EUSuffixed = {}
+  GenClasses = {"scalar", "array", "bitfield", "nested", "anon", "alignas", "flex"}
+  GenPacked = TRUE
   CheckSim = FALSE
 INVARIANTS Inv_RefineStep Inv_RefineDone Inv_DeclSane Inv_ImplSane
 CHECK_DEADLOCK FALSE
